@@ -69,6 +69,16 @@ class BadMA(NoMA):
     __match_args__ = ["x"]
 
 
+class One(NoMA):
+    """single positional attribute: `case One(a, x=b)` names x twice -> TypeError in CPython"""
+    __match_args__ = ("x",)
+
+
+class Dup(NoMA):
+    """__match_args__ repeats a name: two positional sub-patterns name x twice -> TypeError in CPython"""
+    __match_args__ = ("x", "x")
+
+
 class BadMA2(NoMA):
     __match_args__ = (1,)
 
@@ -205,7 +215,7 @@ LITS = ["0", "1", "2", "-1", "7", "100000000000000000000", "1.5", "-0.0", "1+2j"
 VALS = ["K.A", "K.B", "K.C", "K.N", "K.F", "K.In.Z"]
 MAPKEYS = ["'k'", "'j'", "1", "2", "None", "K.A", "K.B", "b'z'", "-1", "1.5"]
 BUILTIN_CLS = ["int", "str", "float", "list", "dict", "tuple", "bool", "bytes", "set", "frozenset", "bytearray"]
-USER_CLS = ["Point", "Point", "P3", "NoMA", "BadMA", "BadMA2", "Lazy", "MySeq", "IntSub"]
+USER_CLS = ["Point", "Point", "P3", "NoMA", "BadMA", "BadMA2", "Lazy", "MySeq", "IntSub", "One", "One", "Dup"]
 
 
 class PG:
@@ -502,7 +512,7 @@ def example(pg, p, variant):
             return "M.Point(%s, %s)" % (attrs.get("x", "1"), attrs.get("y", "2"))
         if c == "P3":
             return "M.P3(%s, %s, %s)" % (attrs.get("x", "1"), attrs.get("y", "2"), attrs.get("z", "3"))
-        if c in ("NoMA", "BadMA", "BadMA2"):
+        if c in ("NoMA", "BadMA", "BadMA2", "One", "Dup"):
             return "M.%s(%s)" % (c, attrs.get("x", "1"))
         if c == "Lazy":
             return "M.Lazy()"
@@ -563,7 +573,7 @@ RANDOM_SUBJECTS = ["0", "1", "-1", "7", "1.5", "-0.0", "0.0", "1+2j", "'a'", "'a
                    "{}", "{'k': 1}", "{'k': 1, 'j': 2}", "{1: 'a', 2: 'b'}", "{'ka': 0, 7: 1}", "{None: None}",
                    "collections.defaultdict(int)", "collections.defaultdict(int, {'k': 1})", "collections.ChainMap({'k': 1}, {'j': 2})",
                    "M.MyMap({'k': 1})", "M.VMap({'k': 1, 1: 2})", "M.BadGetMap({'k': 1})", "M.DictSub({'k': 1})",
-                   "M.Point(1, 2)", "M.Point(0, 'a')", "M.P3(1, 2, 3)", "M.NoMA()", "M.BadMA()", "M.BadMA2()", "M.Lazy()",
+                   "M.Point(1, 2)", "M.Point(0, 'a')", "M.P3(1, 2, 3)", "M.NoMA()", "M.BadMA()", "M.BadMA2()", "M.Lazy()", "M.One(1)", "M.One('a')", "M.Dup(2)",
                    "M.IntSub(1)", "M.IntSub(7)", "M.K", "M.K.A", "M.K.C", "set()", "{1}", "frozenset([1])", "object()", "int", "10**20",
                    "M.Point(M.Point(1, 2), [1, 2])", "[M.Point(1, 2), {'k': [1, 2]}]", "{'k': M.Point(1, 2), 'j': (1, 2)}"]
 
